@@ -111,6 +111,12 @@ class VerifEnv:
         fr = Frame(fi, fi.module, {}, cls=fi.cls)
         I.bind_params(fi.node.args, args, kwargs, fr, Frame(None, fi.module, {}, cls=fi.cls))
         cname = f'{I.callstack[-1].split("::")[-1] if I.callstack else "top"}/call:{fi.qualname}'
+        for pname, srt in c.params.items():
+            if pname not in fr.locals:
+                raise Unsupported(f'contract {c.id} declares parameter {pname} which the callee does not have')
+            g = sorts.conforms(I, srt, fr.locals[pname])
+            I.p.oblige(f'{cname}/pre:sort:{pname}', 'pre@call', fi.node.lineno, g,
+                       note=f'argument {pname} within the declared domain of contract {c.id}', func=fi.ident)
         for k, src in enumerate(c.requires):
             g = I.formula_src(src, fr)
             I.p.oblige(f'{cname}/pre#{k}', 'pre@call', fi.node.lineno, g, note=src, func=fi.ident)
@@ -179,6 +185,12 @@ def snapshot(v, memo=None):
         for k, x in v.fields.items():
             o.fields[k] = snapshot(x, memo)
         return o
+    if isinstance(v, SSeq):
+        return SSeq(v.t, v.elem)
+    if isinstance(v, SArr):
+        return SArr(v.arr, v.n, v.elem, v.arr2)
+    if isinstance(v, SRecList):
+        return SRecList(v.n, dict(v.fields), v.cls)
     if isinstance(v, list):
         return [snapshot(x, memo) for x in v]
     if isinstance(v, dict):
@@ -213,6 +225,8 @@ def verify(env, c, thorough=False):
             c.setup(I, fr_locals)
         for src in c.requires:
             p.assume(I.formula_src(src, pre))
+        if c.requires and p.solver.check() == z3.unsat:
+            raise PathEnd()      # this combination of input shapes is excluded by the precondition
         old = Frame(fi, fi.module, {k: snapshot(v) for k, v in fr_locals.items()})
         p.inputs = old.locals
         fv = FuncVal(fi, None, fi.cls)
@@ -260,6 +274,8 @@ def verify(env, c, thorough=False):
         except Unsupported as e:
             res.unsupported.append(f'path {p.path_id} (contract clause): {e}')
         except PyExc as e:
+            if p.solver.check() == z3.unsat:
+                return
             res.unsupported.append(f'path {p.path_id}: contract clause raised {e}')
 
     try:
@@ -276,7 +292,27 @@ def verify(env, c, thorough=False):
         for t in p.taints:
             if t not in res.abstracted:
                 res.abstracted.append(t)
-    # vacuity: at least one path must reach a post or raise obligation
+    # vacuity: some path that reaches a postcondition / permitted exception must be feasible
+    posts = [ob for ob in all_obs if ob.kind in ('post', 'raises')]
+    if posts:
+        seen_sat = False
+        seen_unknown = False
+        for ob in posts[:12]:
+            sv = z3.Solver()
+            sv.set('timeout', 1500)
+            for t in ob.pc:
+                sv.add(t)
+            rr = sv.check()
+            if rr == z3.sat:
+                seen_sat = True
+                break
+            if rr == z3.unknown:
+                seen_unknown = True
+        if not seen_sat and not seen_unknown:
+            res.unsupported.append('vacuous: no feasible path reaches the postcondition (contradictory requires?)')
+        res.reach = dict(feasible_post_path=seen_sat, unknown=seen_unknown)
+    elif not res.unsupported:
+        res.unsupported.append('vacuous: no path reaches a postcondition')
     results = solve.discharge(all_obs, thorough)
     for ob, r in zip(all_obs, results):
         o = res.obligations.get(ob.name)
